@@ -11,7 +11,7 @@ claim("C02", "TLC model checking of the exported table + trace validation of rea
       "against Trace_SpaceGroup (plus seeded permutations of the operation-list order, the reduced description looked up sorted / without the identity / "
       "reversed and twice from one list, and a group constructed after the caller edited another object's operations). The table is also held against "
       "what its setting labels mean (Settings.tla, invariant TableSettings: origin choice 1/2, H/R, orthorhombic axis permutations, monoclinic unique axis, "
-      "axis cycle and cell choices, as relations between the rows of one number). Every other genuine SHELX description of a setting is looked up as well: all 14 LATT values, reduced by the library and by an independent reference, with validity (LattValid) and meaning (Describes) decided by TLC; and the full list with matrices carrying rounding noise. Beyond the listed statement (reported as EXTENSION-NOTE, never as a verdict): MC_PointGroup holds the point-group table and the point group / crystal system / Laue class reported by every setting against PointGroup.tla.",
+      "axis cycle and cell choices, as relations between the rows of one number). Every other genuine SHELX description of a setting is looked up as well: all 14 LATT values, reduced by the library and by an independent reference, with validity (LattValid) and meaning (Describes) decided by TLC; and the full list with matrices carrying rounding noise. Beyond the listed statement (reported as EXTENSION-NOTE, never as a verdict): MC_PointGroup holds the point-group table and the point group / crystal system / Laue class reported by every setting against PointGroup.tla. LATT is also handed over as numpy integers.",
       "Trusts TLC and the Symop decoding written in the spec; operation identity is by packed code as reported by the object (C11 checks that coding).")
 
 claim("C11", "TLC trace validation of codec/spelling/shift/apply events + exhaustive MC of the Symop module",
@@ -23,7 +23,7 @@ claim("C11", "TLC trace validation of codec/spelling/shift/apply events + exhaus
       "rows) are judged by the specification's own byte-level reader (SymopText.tla); every read is compared, hashed and printed against the same operation "
       "built from the packed integer and the matrix; 3-vector/homogeneous/Cartesian application (also of operations built from integer matrices, of crystals "
       "switched in place, and after the caller edited the matrix it was handed) is compared with Symop!ApplyRaw. "
-      "The thorough tier enumerates the 34,012,224 packed codes as a prefix bounded by its time budget (evidence states the prefix). Homogeneous vectors are also handed over un-normalised (weights 2 and 3, directions with weight 0) and the Cartesian form is taken on cells of special shape (right angles, equal edges, 120 degrees).",
+      "The thorough tier enumerates the 34,012,224 packed codes as a prefix bounded by its time budget (evidence states the prefix). Homogeneous vectors are also handed over un-normalised (weights 2 and 3, directions with weight 0) and the Cartesian form is taken on cells of special shape (right angles, equal edges, 120 degrees). is_identity is checked modulo the lattice; Cartesian forms are also taken for an operation list read from a file in an untabulated setting.",
       "Trusts TLC, the grid projection (residual > 1e-9 is rejected as OnGrid) and the decode written in the spec. Spelling grammar = Symop!Spelling.")
 
 claim("C01", "TLC model checking of the unit-cell algorithm against the orbit + trace validation of real Crystal objects",
@@ -45,7 +45,7 @@ claim("C04", "TLC trace validation of real molecular crystals + model checking o
       "cell boundaries) are built; TLC first evaluates the domain guard (every contact of the infinite crystal is an intended bond or clearly non-bonded) "
       "and then validates connectivity edges and cells, count Z' x |G|, partition of the unit-cell atoms, wholeness (each molecule is a lattice translate "
       "of the exact image of its parent, hence isometric and bonded), provenance columns, centre of mass in the cell, coverage by the symmetry-unique "
-      "molecules and the image labels. Every in-place switch of the recipes is preceded by a request the object must refuse (a misspelt choice).",
+      "molecules and the image labels. Every in-place switch of the recipes is preceded by a request the object must refuse (a misspelt choice). Atom names may repeat in every molecule; the unit-cell atoms handed out stay as they were after molecule queries; neighbour molecules handed out are moved by the caller.",
       "Bond thresholds come from covalent radii held by the specification (Molecules!CovRadius100, certified by ThresholdsOK) with a +-0.08 A guard "
       "band; molecule coordinates are projected to the 1/48 grid (residual > 1e-6 rejected); chemistry restricted to trees of 2-5 atoms of "
       "C/N/O/F/H with terminal Cl/Br/I/S, on general positions, every non-bonded contact at least 0.65 A beyond the sum of radii.")
@@ -59,7 +59,7 @@ claim("C03", "TLC trace validation against an exact brute-force neighbour enumer
       "are whole molecules judged by Dimers!ShellExpected (every atom within the radius drags in the molecule it belongs to; per dimer: reported "
       "separation, class agreement, representatives); TLC recomputes the expected rows from the space group, the asymmetric unit and the integer "
       "Gram matrix by brute force over a box it certifies (BigInt inequality) to contain the query ball, and checks none missing / none extra / no "
-      "duplicate / centre excluded / element, parent index, distance and cell columns.",
+      "duplicate / centre excluded / element, parent index, distance and cell columns. molecule_environment is also asked for a molecule handed over with displaced coordinates (single precision under the default threshold; a coarser copy with a stated threshold), TLC certifying a shell clear of atoms around the query sphere (GivenGuard).",
       "Radii are (k+1/2)u^2/N^2 so no atom is on the query sphere; returned Cartesian positions are pulled back with the crystal's to_fractional and "
       "projected to the grid (residual > 1e-6 rejected); functional_group_surroundings shares the search-box code but is not driven; which geometrically "
       "distinct dimers share a class is left to the library (three separations within a tolerance).")
@@ -70,7 +70,7 @@ claim("C16", "TLC trace validation of the bytes written/read by the real XYZ/SDF
       "1-3 atom molecules over a coordinate alphabet covering the format's range. Real molecules (1-200 atoms, every Z in 1..103, with/without perceived bonds, "
       "bond indices >= 100, 1-4 records per file, save/load and string routes, the repository's SDF file) are written by the library; TLC checks the V2000 columns "
       "of every line on the actual bytes, parses the text with the spec's own reader and compares with both the original molecule and the library's reader; XYZ "
-      "spellings certified by the spec's grammar are parsed by the real reader. Molecules carry title comments (empty, blank, text) and spec-written multi-record files are also stored with CRLF line ends.",
+      "spellings certified by the spec's grammar are parsed by the real reader. Molecules carry title comments (empty, blank, text) and spec-written multi-record files are also stored with CRLF line ends. XYZ files carry further per-atom columns; SDF readers are used with the limit keyword; written molecules carry titles.",
       "Coordinates are decimals built from integers (one digit group finer than the format is accepted either way); float noise allowance 1e-8 only above 8192 for XYZ.")
 claim("C05", "TLC trace validation of rho/weights against the exported interpolation table + MC of the evaluation-context state machine",
       "Promolecule.tla specifies table lookup, linear interpolation, per-atom and per-set density, the kernel's accumulation loop and the stockholder weight as exact "
@@ -84,7 +84,7 @@ claim("C20", "TLC model checking of the Sobol state machine on the exported dire
       "(data-driven: table exported from the tree) checks stratification at every power of two and the (0,m,2)-net property for dimensions 1..40 + seeded others "
       "(quick) / all 1..1000 with m <= 12 (thorough, 4.1M states), and enumerates all ordered pairs of calls over a 72-call alphabet for replay. Sessions of shuffled "
       "single/batch/front-end calls on windows [s, s+k] (s <= 10^6, k <= 256, up to 1000 dims) are validated one TLC step per point: Sobol values must equal the spec's "
-      "integers exactly, all values in [0,1), and an observation register demands the same value for the same (method, seed, dim) by every route and order. Sessions include windows across powers of two and across the multiples of 2^16 beyond 2^19, many dimensions (next to the multiples of 128) at large seeds, and both methods asked in turn through the front end.",
+      "integers exactly, all values in [0,1), and an observation register demands the same value for the same (method, seed, dim) by every route and order. Sessions include windows across powers of two and across the multiples of 2^16 beyond 2^19, many dimensions (next to the multiples of 128) at large seeds, and both methods asked in turn through the front end. A stream is read in consecutive chunks across powers of two, and far windows are asked from six threads at once.",
       "Korobov values have no exact oracle (range, determinism and route agreement to 2^-60 only); compiled kernels used as found.")
 
 claim("C13", "TLC trace validation of P1/supercell/trigonal re-expressions + model checking of the trigonal basis change",
@@ -93,7 +93,7 @@ claim("C13", "TLC trace validation of P1/supercell/trigonal re-expressions + mod
       "hexagonal and rhombohedral descriptions coincide atom by atom modulo the lattice with counts 3:1, and that H->R->H and R->H->R restore the state. Real crystals "
       "(molecular and atomic, all settings in thorough, cells from parameters / lattice vectors / arbitrarily rotated lattice vectors) go through as_P1, as_P1_supercell, "
       "to_translational_symmetry (sizes to 3x3x3) and choose_trigonal_lattice from either setting and back; TLC checks P1-ness, the supercell Gram matrix, the exact atom "
-      "set modulo the supercell, atom and volume ratios, density, the switched state against SwitchTrigonal, and the round trip. Other structures (a CIF in an untabulated setting, a POSCAR) are loaded in the same process before the judged calls.",
+      "set modulo the supercell, atom and volume ratios, density, the switched state against SwitchTrigonal, and the round trip. Other structures (a CIF in an untabulated setting, a POSCAR) are loaded in the same process before the judged calls. General sites may be partially occupied.",
       "Cells are seen through their integer Gram matrix; coordinates projected to the grid (residual > 1e-6 rejected); density to 1e-6 relative; fresh objects only (staleness is C14).")
 
 claim("C14", "TLC model checking of the memo/mutation state machine + TLC-enumerated histories replayed on real objects and trace-validated",
@@ -113,7 +113,7 @@ claim("C19", "TLC trace validation against an exact half-space intersection comp
       "facet lists, prune and CCW order, fan triangles) on 9 named polyhedra x 5 rational scales x 3 simplex rotations against hand-computed vertex sets and volumes and the "
       "scaling law. Real WulffConstruction objects (named/degenerate shapes, generic centrosymmetric and non-centrosymmetric facet sets of 6-20 facets in quick, up to 60 in "
       "thorough, energies within a factor two) are validated by TLC: vertex set equality, all inequalities, >= 3 facets per vertex, exact facet lists, outward closed mesh "
-      "(raw triangles merged by position and to_trimesh), edge set, exact and float volume, and scaling by a rational factor. The list-of-planes route (from_gmf_and_crystal) runs on 34 settings including A-, C-, F- and I-centred ones.",
+      "(raw triangles merged by position and to_trimesh), edge set, exact and float volume, and scaling by a rational factor. The list-of-planes route (from_gmf_and_crystal) runs on 34 settings including A-, C-, F- and I-centred ones. The shape is also asked for its spherical-harmonic form at another scale, and the same planes are expanded earlier for another setting of the same type.",
       "Vertices are projected to the exact rational vertex set (residual bound 1e-8); needle-like shapes beyond 32 units and vertices closer than 1e-4 are out of domain (guards evaluated by TLC).")
 
 claim("C15", "TLC model checking of the CIF parser state machine + trace validation of the real serialiser/parser on its own bytes",
@@ -139,7 +139,7 @@ claim("C17", "TLC enumeration of the complete spelling domain from an independen
       "grammar at design level (distinct symbols, unambiguous spellings, rejected strings never coincide with accepted ones, Less is a strict total order with carbon "
       "first) and prints the whole finite domain. Every printed spelling goes through Element[...], from_string and from_label; all integers -200..300 through Element[n], "
       "from_atomic_number and a numpy integer; the library's own name of every Z in three letter cases; radii/mass by four routes; random multisets through sorted() and "
-      "chemical_formula. TLC validates each observation against Element!Lookup / SortSpec / Formula. Spellings include the kind prefixed (a non-letter in front of a symbol names no element); non-integral numbers must be rejected; atomic numbers arrive in every numpy integer type (lookups, comparisons, sorting).",
+      "chemical_formula. TLC validates each observation against Element!Lookup / SortSpec / Formula. Spellings include the kind prefixed (a non-letter in front of a symbol names no element); non-integral numbers must be rejected; atomic numbers arrive in every numpy integer type (lookups, comparisons, sorting). Digit strings decorated as int() tolerates (+6, 1_0) must be rejected; empty arrays have empty answers.",
       "Names and numeric columns are the library's own data (consistency across routes only); 'D' is deliberately hydrogen; quick tier enumerates every third rejected code, thorough all.")
 
 claim("C12", "TLC trace validation of every UnitCell construction route in exact BigInt arithmetic + model checking of the lattice identities",
@@ -191,7 +191,7 @@ claim("C07", "TLC trace validation against scipy reference harmonics with exact 
       "L <= 5) checks that both layouts are bijections in kernel order, the transcribed grid rule is sufficient for every L in 0..64, completion is injective/linear/power "
       "preserving, and the as-coded loops equal the declarative operators. Real SHT objects for L in {0..12,16,23,32,47} (thorough 0..64) run event sequences (Load, Sample "
       "from scipy sph_harm_y, Synthesis/Analysis compiled and pure Python, real and complex, Complete, PowerSpectrum, EvalAt, Combine) on dense vectors and every single "
-      "channel; TLC checks each observation (reference synthesis, exact coefficients, route agreement, completion, power, Parseval in BigInt, point evaluation). Grids chosen by the caller (smallest exact grid, odd numbers of latitudes) are driven as well.",
+      "channel; TLC checks each observation (reference synthesis, exact coefficients, route agreement, completion, power, Parseval in BigInt, point evaluation). Grids chosen by the caller (smallest exact grid, odd numbers of latitudes) are driven as well. Azimuths outside [0, 2 pi) and band limits given as numpy integers are used.",
       "Y_lm values are imported from scipy as 2^-40 fixed-point data (not computable in TLA+); slack 2^-30 relative; compiled kernels used as found; L = 0 complex skipped as in the statement.")
 claim("C08", "TLC exact oracle for N invariants / power spectrum / P ordering + relational rotation checks; model checking of the exact rotation subgroup",
       "Invariants.tla computes N2(l), Power(l) and the P-triple selection (number, order, cap) exactly on Gaussian-integer coefficient vectors and defines the exact rotations "
